@@ -69,3 +69,4 @@ LEVEL_NOTE = ("Trusted: Lean kernel; axioms propext/Classical.choice/Quot.sound;
               "collections thorough); harness and drivers. Hypothesis WF (key = position, distinct exchange ids, per-exchange injective name_exchange) is decidable, holds for "
               "every builder output with per-exchange unique exchange names, and is shown satisfiable and necessary by examples. The index builder itself is C11; the manager's "
               "async machinery is C03/C07.")
+SUBCHECKS = ["C04M"]
